@@ -266,6 +266,18 @@ func ruleR2_3(w *World, r *Report) {
 				}
 			}
 		}
+		// stepping back, seen from the next iteration: on every path from the removal to the loop header the index
+		// arrives unchanged (`i--` then the `i++` of the loop, or `continue` before the increment)
+		if iphi, isPhi := I.(*ssa.Phi); isPhi {
+			forms, complete := nextIterationForms(iphi, t)
+			same := complete && len(forms) > 0
+			for _, f := range forms {
+				if !f.equal(lfOf(I, 0)) {
+					same = false
+				}
+			}
+			back = same
+		}
 		var bad []string
 		if !wCut {
 			bad = append(bad, "the zero coefficient is not removed from the coefficients")
